@@ -79,7 +79,7 @@ type Expr struct {
 
 // Fail describes an injected failure of a generated function (C06).
 type Fail struct {
-	Mode       string `json:"mode"` // error | temp | panic | badpart
+	Mode       string `json:"mode"` // error | temp | retriable | panic | badpart
 	At         int    `json:"at"`   // fail at the call with this ordinal (0-based); for readers/writers: at this row position
 	Persistent bool   `json:"persistent"`
 	AtEOF      bool   `json:"at_eof,omitempty"` // readers/writers: fail at the end-of-stream call
